@@ -41,7 +41,7 @@
 (*                                   FaultSchedule.start() cancels nothing     *)
 EXTENDS Naturals, Integers, Sequences, FiniteSets, TLC
 
-CONSTANTS Dev
+CONSTANTS Dev            \* deviations in force when the schedule does not choose them itself (trace mode)
 
 Inf == 999999          \* "never" (permanent crash)
 Q == 9                 \* entity id of the queue-fronted server
@@ -53,7 +53,8 @@ VARIABLES m,           \* machine state (record, see InitM)
           sch          \* the schedule (record, see below)
 vars == <<m, sch>>
 
-\* sch = [C, L0, H, wins, groups, jobs, probes, holds]
+\* sch = [dev, C, L0, H, wins, groups, jobs, probes, holds]
+\*   dev       = set of deviation names in force during this run
 \*   wins[w]   = [k, tg, s, e, x, cm, ct]
 \*        k  in "crash","pause","part","lat","loss","cap"
 \*        tg = <<entity>> | <<group index>> | <<src, dst>> | <<0>>
@@ -74,16 +75,20 @@ IsCrashK(k) == k \in {"crash", "pause"}
 
 Range(s) == { s[i] : i \in 1..Len(s) }
 Max0(x) == IF x > 0 THEN x ELSE 0
-Has(d) == d \in Dev
+Has(d) == d \in sch.dev
 
 JobId(S, j) == 3 * Len(S.wins) + j
 
 \* The event heap: a sequence of entries <<t, id, kind, a, b>> kept sorted by <<t, id>>
 \* (id = creation order = Event._sort_index), earliest first.
 Lt(x, y) == x[1] < y[1] \/ (x[1] = y[1] /\ x[2] < y[2])
-RECURSIVE InsPos(_, _, _)
-InsPos(h, x, i) == IF i = 0 THEN 0 ELSE IF Lt(h[i], x) THEN i ELSE InsPos(h, x, i - 1)
-Ins(h, x) == LET i == InsPos(h, x, Len(h)) IN SubSeq(h, 1, i) \o <<x>> \o SubSeq(h, i + 1, Len(h))
+\* number of entries before x (binary search)
+RECURSIVE InsPos(_, _, _, _)
+InsPos(h, x, lo, hi) ==
+    IF lo >= hi THEN lo
+    ELSE LET mid == (lo + hi) \div 2 IN
+         IF Lt(h[mid + 1], x) THEN InsPos(h, x, mid + 1, hi) ELSE InsPos(h, x, lo, mid)
+Ins(h, x) == LET i == InsPos(h, x, 0, Len(h)) IN SubSeq(h, 1, i) \o <<x>> \o SubSeq(h, i + 1, Len(h))
 
 InitM(S) ==
     LET nw == Len(S.wins)  nj == Len(S.jobs)  np == Len(S.probes)  nh == Len(S.holds)
@@ -99,7 +104,7 @@ InitM(S) ==
     IN [ heap |-> SortSeq(fon \o foff \o can \o jb \o pb \o hd, Lt),
          ctr |-> 3 * nw + nj + np + nh, clock |-> 0,
          wcan |-> [w \in 1..nw |-> S.wins[w].cm = 2
-                                   \/ (S.wins[w].cm = 1 /\ ~Has("cancel_before_start_ineffective"))],
+                                   \/ (S.wins[w].cm = 1 /\ "cancel_before_start_ineffective" \notin S.dev)],
          open |-> {},                               \* windows activated and not yet deactivated
          flag |-> [e \in EntDom |-> FALSE],         \* entity._crashed
          ccnt |-> [e \in EntDom |-> 0],
@@ -261,7 +266,7 @@ Pop == /\ m.heap # <<>>
        /\ Head(m.heap)[1] <= sch.H
        /\ m' = Step(m, Head(m.heap))
        /\ UNCHANGED sch
-Done(mm) == mm.heap = <<>> \/ Head(mm.heap)[1] > sch.H
+Done(mm) == IF mm.heap = <<>> THEN TRUE ELSE Head(mm.heap)[1] > sch.H
 
 \* ===========================================================================
 \* Contract C06 over the observation logs L = [act, snk, obs, msgs, hlog] of a finished run
